@@ -6,13 +6,13 @@ from ..driver import Prop
 class C14(Prop):
     id = 'C14'
     design_ref = 'DESIGN.md section 4 / C14'
-    budgets = {'quick': 3000, 'thorough': 100000}
+    budgets = {'quick': 12000, 'thorough': 250000}
     timeout_s = 60.0
 
     def gen(self, rng, index, tier):
         if index % 4 == 3:
-            return lifesim.gen_c14_c(rng, real_pool=(index % 200 == 3))
-        return lifesim.gen_c14_ab(rng)
+            return lifesim.gen_c14_c(rng, real_pool=(index % (40 if tier == 'thorough' else 200) == 3))
+        return lifesim.gen_c14_ab(rng, all_cuts=(tier == 'thorough' and index % 5 == 0))
 
     def run(self, case):
         if case['engine'] == 'lifesim_multi':
